@@ -75,13 +75,23 @@ def rule_diff_write(ctx, rep):
                       written_path=unparse(path_root) if path_root is not None else None)
 
 
-def _ret_kind(ctx, fn, value: ast.expr | None) -> str:
+def _ret_kind(ctx, fn, value: ast.expr | None, must: frozenset = frozenset()) -> str:
+    """'none' | 'changeset' | 'other' for a returned expression, given the facts of the alternative it is returned under."""
     if value is None or (isinstance(value, ast.Constant) and value.value is None):
         return "none"
     r = ctx.resolver(fn)
+    if isinstance(value, ast.Name) and (True, f"{value.id} is None") in must:
+        return "none"  # the sentinel assignment is the one that reaches this alternative
     v = r.expand(value)
     if isinstance(v, ast.Call) and r.callee_qname(v) == "codemodder.codetf.ChangeSet":
         return "changeset"
+    if isinstance(v, ast.Name):
+        if (True, f"{v.id} is None") in must:
+            return "none"
+        vals = [a.value for a in walk_no_nested(fn.node) if isinstance(a, ast.Assign) and any(isinstance(t, ast.Name) and t.id == v.id for t in a.targets)]
+        real = [x for x in vals if not (isinstance(x, ast.Constant) and x.value is None)]
+        if real and all(isinstance(x, ast.Call) and r.callee_qname(x) == "codemodder.codetf.ChangeSet" for x in real) and (False, f"{v.id} is None") in must:
+            return "changeset"
     return "other"
 
 
@@ -147,27 +157,34 @@ def rule_changeset_iff_write(ctx, rep):
             for ex in fa.exits:
                 if ex.kind == "raise":
                     continue
-                kind = _ret_kind(ctx, fn, ex.value) if ex.kind == "return" else "none"
-                wrote_all = has_event(ex.state, "EV:write")
-                wrote_some = may_event(ex.state, "EV:write")
                 where = fn.loc(ex.node) if ex.node is not None else fn.loc()
-                label = f"DRY={dry}:{kind}:{unparse(ex.node)[:40] if ex.node is not None else 'end'}"
-                if dry:
-                    ok = not wrote_some
-                    msg = "a write is reachable on a path where the dry-run flag is set"
-                elif kind == "changeset":
-                    n_cs += 1
-                    ok = wrote_all
-                    msg = "a ChangeSet is returned on a path that has not written the file (report names a change that was not made)"
-                elif kind == "none":
-                    # every alternative of this exit either wrote nothing or went through the write's failure handler
-                    ok = all("EV:write" not in may or (True, "EV:write-failed") in must for must, may in ex.state.parts)
-                    msg = "returns None (no changeset) on a path that has written the file (a changed file without a changeset)"
-                else:
-                    ok = True
-                    msg = ""
-                rep.check("R-CHANGESET-IFF-WRITE", fn.qname, where, ok, label, msg,
-                          wrote_on_all_paths=wrote_all, wrote_on_some_path=wrote_some)
+                # one verdict per alternative of the exit state (the same `return x` can be the failure exit and the success exit)
+                verdicts = {}
+                for must, may in ex.state.parts:
+                    kind = _ret_kind(ctx, fn, ex.value, must) if ex.kind == "return" else "none"
+                    wrote_all = (True, "EV:write") in must
+                    wrote_some = "EV:write" in may
+                    if dry:
+                        ok = not wrote_some
+                        msg = "a write is reachable on a path where the dry-run flag is set"
+                    elif kind == "changeset":
+                        ok = wrote_all
+                        msg = "a ChangeSet is returned on a path that has not written the file (report names a change that was not made)"
+                    elif kind == "none":
+                        # this alternative either wrote nothing or went through the write's failure handler
+                        ok = (not wrote_some) or (True, "EV:write-failed") in must
+                        msg = "returns None (no changeset) on a path that has written the file (a changed file without a changeset)"
+                    else:
+                        ok = True
+                        msg = ""
+                    prev = verdicts.get(kind)
+                    verdicts[kind] = (ok and (prev[0] if prev else True), msg if not ok else (prev[1] if prev else msg), wrote_all and (prev[2] if prev else True), wrote_some or (prev[3] if prev else False))
+                for kind, (ok, msg, wrote_all, wrote_some) in sorted(verdicts.items()):
+                    if kind == "changeset" and not dry:
+                        n_cs += 1
+                    label = f"DRY={dry}:{kind}:{unparse(ex.node)[:40] if ex.node is not None else 'end'}"
+                    rep.check("R-CHANGESET-IFF-WRITE", fn.qname, where, ok, label, msg,
+                              wrote_on_all_paths=wrote_all, wrote_on_some_path=wrote_some)
             if not dry and n_cs == 0:
                 rep.check("R-CHANGESET-IFF-WRITE", fn.qname, fn.loc(), False, "no-changeset-exit",
                           "no exit returns a ChangeSet when not in dry-run mode")
@@ -304,7 +321,7 @@ def rule_codec_agree(ctx, rep):
         for c in walk_no_nested(fn.node):
             if isinstance(c, ast.Call):
                 for t in r.resolve_call(c):
-                    if isinstance(t, FuncInfo) and t.module.name.startswith("codemodder.codemods") and t.cls is None and t not in fns:
+                    if isinstance(t, FuncInfo) and t.module.name.startswith("codemodder") and t.cls is None and t not in fns:
                         fns.append(t)
         decs, encs = [], []
         for f in fns:
